@@ -132,7 +132,9 @@ def _names(spec):
     return spec.cache["names"]
 
 
-SEPARATORS = ("\r", "\x0b", "\x0c", "\x1c", "\x1d", "\x1e", "\x85", "\u2028", "\u2029", "\t", "\u00a0")
+SEPARATORS = ("\r", "\x0b", "\x0c", "\x1c", "\x1d", "\x1e", "\x85", "\u2028", "\u2029", "\t", "\u00a0",
+              # characters that are not one terminal cell wide, or not one UTF-8 / UTF-16 unit long: columns are counted in characters
+              "\U0001F600", "\u0301", "\u4e2d", "\uff21", "\u200b")
 
 
 def separator_specs(tier: str):
@@ -150,7 +152,7 @@ def separator_specs(tier: str):
 
 
 def specs(tier: str):
-    return separator_specs(tier) + families.c01_specs(tier, kmode="all", extra_sigma="\né", max_inputs=45 if tier == "quick" else 160, extra_trivia=("cm_pred", "cm_nonatomic", "both_overlap"), sigma_core="aA", lean=True)
+    return separator_specs(tier) + families.builtin_specs("zero", tier) + families.c01_specs(tier, kmode="all", extra_sigma="\né", max_inputs=45 if tier == "quick" else 160, extra_trivia=("cm_pred", "cm_nonatomic", "both_overlap"), sigma_core="aA", lean=True)
 
 
 def run(tier: str) -> int:
@@ -162,7 +164,7 @@ def run(tier: str) -> int:
         rule=families.c01_rule_text() + "; input alphabet extended by '\\n' and 'é' (multi-line, non-ASCII), every start position. Oracle on every rejected (grammar, input, start_pos) in four modes: "
              "furthest_pos == -1 or start_pos <= furthest_pos <= len; keys of furthest_expected/unexpected are rules of the grammar or built-ins and labels are strings; str(), detailed_message(), expected(), expected_labels() do not raise; "
              "for furthest_pos >= 0 the L:C in the message and error_context() equal (1 + newlines before p, 1 + distance from the last newline) and the source line shown is line L (up to trailing whitespace) - "
-             "or the same three under str.splitlines() boundaries, consistently; plus the separators family: three rules over every string up to length L over {a, b, newline, s} for s in \\r \\v \\f \\x1c \\x1d \\x1e \\x85 U+2028 U+2029 \\t U+00A0. "
+             "or the same three under str.splitlines() boundaries, consistently" + families.BUILTIN_RULE_TEXT + "; plus the separators family (also an emoji, a combining mark, a CJK and a fullwidth character, a zero-width space): three rules over every string up to length L over {a, b, newline, s} for s in \\r \\v \\f \\x1c \\x1d \\x1e \\x85 U+2028 U+2029 \\t U+00A0. "
              "Non-trivial: the case was rejected (those are the cases this property is about)",
         validate_model=False, still_violates=replay_case,
     )
